@@ -203,6 +203,17 @@ DIRECTED[1] = (DIRECTED[1][0],
                DIRECTED[1][2], ["lib base", "lib base", "lib tag", "lib base5", "lib base"])
 
 
+# F50: a module that rebinds names of built-ins keeps its rebinding whatever happens to the imports it attempts - here an import that fails
+# (no call frame left for the module body) and is caught in that module; the module is then imported successfully by a shallower call
+DIRECTED.append(("module-keeps-its-rebound-builtins-after-a-caught-import-failure",
+                 'import "ovr";\nprint(ovr.go(61));\nprint(ovr.go(3));\nprint("main print is untouched");\n',
+                 {"late": 'var v = 42;\n',
+                  "ovr": 'var log = [];\nfn myprint(x) { log.push(x); }\nvar print = myprint;\nvar type = "rebound type";\n'
+                         'fn rec(n) { if n == 0 { import "late"; return late.v; } return rec(n - 1); }\n'
+                         'fn go(n) {\n    try { return rec(n); } catch e { print("caught"); }\n    return [log, type];\n}\n'},
+                 ["[[caught], rebound type]", "[[caught, caught], rebound type]", "main print is untouched"]))
+
+
 def correspondence(ctx, model_ok=True):
     rng = ctx.rng.fork("c14")
     failures = []
